@@ -67,6 +67,7 @@ type item struct {
 var pool = []item{
 	{"src/a.css", "a { color : red }\n"}, {"src/a.css", "b { margin : 0px 0px }\n"},
 	{"src/a.js", "var a = 1 ;\n"}, {"src/a.js", "var a = ( 1 ;\n"}, // second one fails to minify
+	{"src/a.js", "window.x = f"}, // no trailing semicolon or newline: only the bundle separator keeps it apart from what follows
 	{"src/b.html", "<p> x   y </p>\n"},
 	{"src/c.txt", "plain  text\n"},
 	{"src/.h.css", "h { x : y }\n"},
@@ -74,7 +75,7 @@ var pool = []item{
 	{"src/a.min.css", "m { q : r }\n"},
 	{"src/d.json", "{ \"a\" : 1 }\n"}, {"src/d.json", "{ \"a\" : }\n"},
 	{"src/sub/a.css", "s { t : u }\n"},
-	{"src/sub/e.js", "f ( 1 , 2 ) ;\n"},
+	{"src/sub/e.js", "f ( 1 , 2 ) ;\n"}, {"src/sub/e.js", "( function ( ) { g ( ) } ) ( )"},
 	{"src/.hid/z.css", "z { a : b }\n"},
 	{"src/sub/c.txt", "other\n"},
 }
@@ -129,6 +130,8 @@ var shapes = []shape{
 	{"files→stdout without -b (rejected)", nil, "all", ""},
 	{"bundle→file", []string{"-b"}, "all", "bundle.out"},
 	{"bundle→stdout", []string{"-b"}, "all", ""},
+	{"bundle --type js→file", []string{"-b", "--type", "js"}, "all", "bundle.out"},
+	{"bundle --mime application/javascript→stdout", []string{"-b", "--mime", "application/javascript"}, "all", ""},
 	{"dir -r→dir/", []string{"-r"}, "src", "out/"},
 	{"dir/ -r→dir/", []string{"-r"}, "src/", "out/"},
 	{"dir -r→dir (no slash)", []string{"-r"}, "src", "out"},
@@ -659,7 +662,7 @@ func One(cli string, c caseT) (string, string) {
 // Run executes C19.
 func Run(c *core.Check) {
 	maxFiles := c.Pick(3, 4)
-	c.Rule = fmt.Sprintf("every tree of <=%d files from a pool of 15 (names a.css a.js b.html c.txt .h.css noext a.min.css d.json in src/, src/sub/, a hidden directory; minifiable and failing contents) x %d invocation shapes (file→stdout/file/dir/itself/., several files→dir, bundle→file/stdout, directory with/without trailing slash ±-r ±-a ±-s, in place, --match/--include/--exclude glob and ~regex, --type/--mime/--ext, stdin, -q/-v, rejected combinations) run on the real binary in a fresh scratch directory; the reference model gives destination paths from the README rules and contents from library calls; every path not predicted must be byte-identical; non-trivial = at least one file was written", maxFiles, len(shapes))
+	c.Rule = fmt.Sprintf("every tree of <=%d files from a pool of 17 (names a.css a.js b.html c.txt .h.css noext a.min.css d.json in src/, src/sub/, a hidden directory; minifiable and failing contents) x %d invocation shapes (file→stdout/file/dir/itself/., several files→dir, bundle→file/stdout, directory with/without trailing slash ±-r ±-a ±-s, in place, --match/--include/--exclude glob and ~regex, --type/--mime/--ext, stdin, -q/-v, rejected combinations) run on the real binary in a fresh scratch directory; the reference model gives destination paths from the README rules and contents from library calls; every path not predicted must be byte-identical; non-trivial = at least one file was written", maxFiles, len(shapes))
 	c.Assumptions = []string{"reference model of destinations written from cmd/minify/README.md and the error messages of main.go", "--watch excluded (event driven)", "ownership/timestamps are not compared"}
 	defer clitree.Cleanup()
 	cli, err := clitree.CLI()
